@@ -137,7 +137,7 @@ class Provenance:
                         if rest and not s.startswith(("const:", "call:")):
                             out.add(s + rest)
                         else:
-                            out.add(s if not rest else s + rest)
+                            out.add(s)
                 seen.discard(root)
             else:
                 out.add(p)
